@@ -342,6 +342,11 @@ def ite(c, t, e):
         nc = tnot(c)
         if nc == le0(sub(const(1), d2)) or nc == le0(neg(d2)):
             return add(t, pos(d2))
+        # if t <= e {t} else {e}  (or t < e)  is the minimum of the two
+        if c == le0(d) or c == le0(add(d, const(1))):
+            return tmin(t, e)
+        if nc == le0(d2) or nc == le0(add(d2, const(1))):
+            return tmin(t, e)
         return root(('ite', c, t, e))
     if is_bool(t) and is_bool(e):
         return tor(tand(c, t), tand(tnot(c), e))
@@ -465,6 +470,9 @@ def renorm(t):
             return ('call', t[1], tuple(unroot(a) for a in t[2]))
         if tag == 'tup':
             return t
+        if tag == 'idx' and isinstance(t[1], tuple) and t[1] and t[1][0] == 'tup' and is_lin(t[2]) and is_const(t[2]) \
+                and 0 <= t[2][1] < len(t[1][1]):
+            return unroot(t[1][1][t[2][1]])      # a constant index into a window / array literal
     except Exception:
         return t
     return t
@@ -713,27 +721,36 @@ def _build_tree(t, order, scruts, world, fuel):
     return res
 
 
-def canon(t):
+def canon(t, minmax=False):
     """One representation per value: a linear form that is just `1*root + 0` is written as the root itself
     wherever it occurs inside another term; bound variables are numbered by binder nesting; decision trees over enum
-    variants are written in reduced ordered form."""
-    return _canon(enum_norm(_canon(alpha(t))))
+    variants are written in reduced ordered form.  With `minmax`, `b + pos(a - b)` (however oriented, however it was
+    written: saturating_sub, a guarded subtraction, `if a > b {a} else {b}`) is written max{a, b}, and
+    `a - pos(a - b)` is written min{a, b}."""
+    return _canon(enum_norm(_canon(alpha(t), minmax)), minmax)
 
 
-def _canon(t):
+def _canon(t, minmax=False):
     if not isinstance(t, tuple):
         return t
     if is_lin(t):
         acc = const(t[1])
         for r, c in t[2]:
-            acc = add(acc, scale(as_lin(_canon(r)), c))
+            acc = add(acc, scale(as_lin(_canon(r, minmax)), c))
+        if minmax:
+            ps = [(r, c) for r, c in acc[2] if isinstance(r, tuple) and r and r[0] == 'pos']
+            if len(ps) == 1 and ps[0][1] in (1, -1):
+                r, c = ps[0]
+                base = sub(acc, scale(root(r), c))
+                d = as_lin(r[1])
+                acc = tmax(add(base, d), base) if c == 1 else tmin(base, sub(base, d))
         r = single_root(acc)
         return r if r is not None else acc
-    return tuple(_canon(x) for x in t)
+    return tuple(_canon(x, minmax) for x in t)
 
 
-def same(a, b):
-    return canon(a) == canon(b)
+def same(a, b, minmax=False):
+    return canon(a, minmax) == canon(b, minmax)
 
 
 def alpha(t, env=None, depth=0):
